@@ -171,10 +171,10 @@ def _channel_frame(role, kind, has_pub):
                 E.prove('ERROR:nothing_signalled_after_receive_direction_closed', sig == [])
             else:
                 E.prove('ERROR:on_error_exactly_once', sig == ['on_error'])
-            E.prove('ERROR:ends_the_interaction_stream_released', len(fin) >= 1 and all(x[2][0] is sid for x in fin))
+            E.prove('@C08,C10:ERROR:ends_the_interaction_stream_released', len(fin) >= 1 and all(x[2][0] is sid for x in fin))
             if has_pub and sc0 is not True:
                 ls = [x[1] for x in c.signals(c.local_subscription)]
-                E.prove('ERROR:local_publisher_cancelled', len(ls) >= 1 and all(m == 'cancel' for m in ls))
+                E.prove('@C08,C10:ERROR:local_publisher_cancelled', len(ls) >= 1 and all(m == 'cancel' for m in ls))
         elif kind == 'cancel':
             if has_pub:
                 E.prove('CANCEL:local_subscription_cancelled_once', [x[1] for x in c.signals(c.local_subscription)] == ['cancel'])
@@ -289,7 +289,7 @@ def channel_wrapper(E):
         E.cover('on_error')
         em = c.emissions()
         E.prove('wrapper.on_error:one_ERROR_on_own_stream', len(em) == 1 and em[0][1] == 'send_error' and em[0][2][0] is sid and em[0][2][1] is ex)
-        E.prove('wrapper.on_error:ERROR_ends_the_interaction_stream_released', len(c.finishes()) >= 1)
+        E.prove('@C08,C10:wrapper.on_error:ERROR_ends_the_interaction_stream_released', len(c.finishes()) >= 1)
     sc, rc = flags(h)
     if what != 2:
         E.prove('wrapper:released_iff_both_directions_closed', (len(c.finishes()) >= 1) == (sc is True and rc is True))
